@@ -3,7 +3,7 @@
   (split of the source-tie helper lemmas so that an edit of one Rust function only breaks the properties that
   depend on that function; headline statements in `Props/SrcTiePrims.lean`)
 -/
-import RenetVerif.Generated.Src
+import RenetVerif.Base.RustSem
 import RenetVerif.Netcode.Replay
 import RenetVerif.Netcode.Wire
 import RenetVerif.Renet.Channels
